@@ -84,6 +84,16 @@ pub fn string_of(r: &mut StdRng, cls: &str) -> String {
     }
 }
 
+/// Like string_of, but "big" means "at the limit the storage backends put on the field" (cap or cap-1 bytes).
+pub fn string_capped(r: &mut StdRng, cls: &str, cap: usize) -> String {
+    if cls == "big" {
+        let n = if r.gen_bool(0.5) { cap } else { cap - 1 };
+        if r.gen_bool(0.5) { multi_exact(r, n) } else { ascii(r, n) }
+    } else {
+        string_of(r, cls)
+    }
+}
+
 /// Byte strings that are NOT valid UTF-8.
 pub fn bad_utf8(r: &mut StdRng) -> Vec<u8> {
     let pool: [&[u8]; 8] = [
@@ -96,9 +106,11 @@ pub fn bad_utf8(r: &mut StdRng) -> Vec<u8> {
         &[0xf4, 0x90, 0x80, 0x80], // > U+10FFFF
         &[0xf8, 0x88, 0x80, 0x80, 0x80],
     ];
-    let mut v = ascii(r, r.gen_range(0..6)).into_bytes();
+    let n1 = r.gen_range(0..6);
+    let mut v = ascii(r, n1).into_bytes();
     v.extend_from_slice(pool.choose(r).unwrap());
-    v.extend(ascii(r, r.gen_range(0..6)).into_bytes());
+    let n2 = r.gen_range(0..6);
+    v.extend(ascii(r, n2).into_bytes());
     v
 }
 
@@ -148,7 +160,11 @@ pub fn flip_bit(v: &mut [u8], r: &mut StdRng, lo: usize, hi: usize) {
 
 pub fn filename_of(r: &mut StdRng, cls: &str) -> String {
     match cls {
-        "ascii" => format!("{}.{}", ascii_name(r, r.gen_range(1..20)), ["txt", "jpg", "png", "pdf", "mp4", "bin"].choose(r).unwrap()),
+        "ascii" => {
+            let n = r.gen_range(1..20);
+            let stem = ascii_name(r, n);
+            format!("{}.{}", stem, ["txt", "jpg", "png", "pdf", "mp4", "bin"].choose(r).unwrap())
+        }
         "unicode" => {
             let n = r.gen_range(3..40);
             let mut s: String = multi_exact(r, n).chars().filter(|c| !c.is_control() && *c != '/' && *c != '\\').collect();
